@@ -49,6 +49,17 @@ def series_menu(n):
         c = max(5.0, c + ((x >> 8) % 2001 - 1000) / 400.0)
         cl.append(c)
     out['walk'] = build(cl, 0.4)
+    # session gaps: the open jumps away from the previous close, which then lies OUTSIDE the bar's range
+    # (true range, ATR, Keltner, the ADX family see their |high - previous close| / |low - previous close| terms only here)
+    g = out['walk'].copy()
+    for i in range(1, n):
+        jump = (3.0 if i % 3 == 0 else -2.5 if i % 3 == 1 else 0.0)
+        o = g[i - 1, 2] + jump
+        c = g[i, 2]
+        g[i, 1] = o
+        g[i, 3] = max(o, c) + 0.2
+        g[i, 4] = max(min(o, c) - 0.2, 0.5)
+    out['gappy'] = g
     big = out['walk'].copy()
     big[:, 1:5] *= 1e6
     out['huge'] = big
@@ -180,7 +191,7 @@ def _core_job(args):
         a_e, a_w = 2.0 / (p + 1), 1.0 / p
         n = min(12000, max(400, 3 * p + 3 * decay_steps(a_w) + 60))
         menu = series_menu(n)
-        names = list(menu) if not quick else ['constant', 'alternating', 'walk', 'huge', 'tiny', 'up']
+        names = list(menu) if not quick else ['constant', 'alternating', 'walk', 'gappy', 'huge', 'tiny', 'up']
         for sname in names:
             c = menu[sname]
             for st in sources:
